@@ -49,6 +49,9 @@ class UseWalrusIf(SimpleCodemod, NameResolutionMixin):
         self.assigns = {}
 
     def _build_named_expr(self, target, value, parens=True):
+        if isinstance(value, cst.Tuple | cst.Yield) and not value.lpar:
+            # `x = 1, 2` and `x = yield` need their own parentheses inside `:=`
+            value = value.with_changes(lpar=[cst.LeftParen()], rpar=[cst.RightParen()])
         return cst.NamedExpr(
             target=target,
             value=value,
